@@ -225,6 +225,9 @@ pub proof fn lemma_sum_enc_mono(batch: Seq<Entry>, a: int, b: int)
 pub open spec fn entries_ok(batch: Seq<Entry>) -> bool {
     forall|i: int| 0 <= i < batch.len() ==> (#[trigger] batch[i]).enc_ok() && 0 < entry_enc(batch[i]).len() < 0x1000_0000
 }
+pub open spec fn flushable(info: StoreInfo) -> bool {
+    if info.info_type == StoreInfoType::Content { if !info.miss { info.data is Some } else { info.length is Some } } else { info.miss }
+}
 pub open spec fn is_write(info: StoreInfo, store: Store, at: int, data: Seq<u8>) -> bool {
     info.store == store && info.info_type == StoreInfoType::Content && !info.miss && info.index == at
         && info.data is Some && info.data->Some_0@ == data
@@ -442,7 +445,7 @@ impl Oplog {
     result: r
     requires:
         changeset.upgraded ==> changeset.hash is Some && changeset.signature is Some,
-        changeset.nodes@.len() <= 0x10_0000,
+        changeset.nodes@.len() <= 0x40_0000,
         forall|i: int| 0 <= i < changeset.nodes@.len() ==> (#[trigger] changeset.nodes@[i]).hash@.len() == 32,
         old(self).entries_byte_length <= 0xffff_ffff_ffff, old(self).entries_length <= 0xffff_ffff_ffff
     ensures:
@@ -450,7 +453,8 @@ impl Oplog {
         final(self).header_bits == old(self).header_bits,
         r is Ok ==> final(self).entries_length == old(self).entries_length + 1,
         r is Ok ==> header_same_except_tree(r->Ok_0.header, *header),
-        r is Ok ==> r->Ok_0.infos_to_flush@.len() == 1,
+        r is Ok ==> r->Ok_0.infos_to_flush@.len() == 1 && flushable(r->Ok_0.infos_to_flush@[0]),
+        r is Ok ==> final(self).entries_byte_length <= old(self).entries_byte_length + 0x1000_0008,
         r is Ok ==> (exists|e: Entry| #![trigger entry_enc(e)]
             e.user_data@.len() == 0 && e.bitfield == bitfield_update && nodes_same(e.tree_nodes@, changeset.nodes@)
             && (e.tree_upgrade is Some) == changeset.upgraded
